@@ -53,4 +53,10 @@ MUTANTS = [
  dict(id='C11-metric-first-only', file='src/deep/api/tracepoint/trigger.py', old="        'metrics': metrics,\n", new="        'metrics': metrics[:1],\n", props=['C11', 'C17']),
  dict(id='C11-condition-dropped-for-metric', file='src/deep/api/tracepoint/trigger.py', old="    condition = args[CONDITION] if CONDITION in args else None\n    return LocationAction(tp_id, condition, {\n        'metrics'", new="    condition = None\n    return LocationAction(tp_id, condition, {\n        'metrics'", props=['C11']),
  dict(id='C11-skip-after-bad', file='src/deep/grpc/__init__.py', old="            logging.warning(\"Cannot process tracepoint %s, skipping it.\", r.ID)\n            continue", new="            logging.warning(\"Cannot process tracepoint %s, skipping it.\", r.ID)\n            break", props=['C11', 'C12']),
+ dict(id='C09-inline-push', file='src/deep/push/push_service.py', old="        task = self.task_handler.submit_task(self._push_task, snapshot)\n", new="        if len(self.task_handler._pending) >= 2:\n            self._push_task(snapshot)\n            return\n        task = self.task_handler.submit_task(self._push_task, snapshot)\n", props=['C09']),
+ dict(id='C09-flush-result-again', file='src/deep/task/__init__.py', old="        wait(list(self._pending.values()), timeout=10)\n", new="        for future in list(self._pending.values()):\n            future.result(10)\n", props=['C09', 'C14']),
+ dict(id='C09-flush-ignores-pending', file='src/deep/task/__init__.py', old="        wait(list(self._pending.values()), timeout=10)\n", new="        wait(list(self._pending.values())[:1], timeout=10)\n", props=['C09']),
+ dict(id='C09-closed-silent', file='src/deep/task/__init__.py', old="        if not self._open:\n            raise IllegalStateException\n", new="        if not self._open:\n            return\n", props=['C09']),
+ dict(id='C09-submit-twice-on-fail', file='src/deep/push/push_service.py', old="        stub.send(converted, metadata=self.grpc.metadata())", new="        try:\n            stub.send(converted, metadata=self.grpc.metadata())\n        except Exception:\n            stub.send(converted, metadata=self.grpc.metadata())", props=['C09']),
+ dict(id='C09-pending-key-race', file='src/deep/task/__init__.py', old="        wait(list(self._pending.values()), timeout=10)\n", new="        for key in list(self._pending.keys()):\n            if key in self._pending:\n                wait([self._pending[key]], timeout=10)\n", props=['C09']),
 ]
